@@ -20,6 +20,7 @@ type HarnessSpec struct {
 	Fn     *ssa.Function
 	Params map[string]int
 	Setup  func(x *Explorer)
+	Solver string // primary solver kind for this harness ("" = pool default)
 }
 
 // Result aggregates the outcome of exploring one harness.
@@ -171,11 +172,26 @@ func (p *Pool) worker() {
 	if primary == "" {
 		primary = "z3-new"
 	}
-	solver, err := StartSolver(primary, p.Timeout, p.Stats)
-	if err != nil {
-		panic(err)
+	solvers := map[string]*Solver{}
+	defer func() {
+		for _, s := range solvers {
+			s.Close()
+		}
+	}()
+	getSolver := func(kind string) *Solver {
+		if kind == "" {
+			kind = primary
+		}
+		if s, ok := solvers[kind]; ok {
+			return s
+		}
+		s, err := StartSolver(kind, p.Timeout, p.Stats)
+		if err != nil {
+			panic(err)
+		}
+		solvers[kind] = s
+		return s
 	}
-	defer solver.Close()
 	var cross []*Solver
 	for _, k := range p.CrossKinds {
 		if cs, err := StartSolver(k, p.Timeout, p.Stats); err == nil {
@@ -189,7 +205,7 @@ func (p *Pool) worker() {
 		if j == nil {
 			return
 		}
-		x := NewExplorer(p.Prog, j.harness.Name, solver)
+		x := NewExplorer(p.Prog, j.harness.Name, getSolver(j.harness.Solver))
 		x.Cross = cross
 		if p.Profile {
 			x.ForkSites = map[string]int{}
